@@ -48,6 +48,38 @@ def run_child(spec, timeout):
     return json.loads(lines[-1])
 
 
+def encoder_leaks(codec):
+    """KF-61 / KF-62 (open, dependencies): pyppmd.Ppmd7Encoder.encode() and inflate64.Deflater.deflate() keep a reference to every
+    input object they are given, so compressing N bytes in fresh blocks pins N bytes.  Decided by measuring the reference count of a
+    probe object around one call of the library, not from the symptom."""
+    import sys
+
+    try:
+        if "PPMd" in codec:
+            import pyppmd
+
+            enc = pyppmd.Ppmd7Encoder(6, 1 << 20)
+            probe = bytes(1000) + b"p"
+            before = sys.getrefcount(probe)
+            enc.encode(probe)
+            after = sys.getrefcount(probe)
+            enc.flush()
+            return "pyppmd" if after > before else None
+        if "Deflate64" in codec:
+            import inflate64
+
+            enc = inflate64.Deflater()
+            probe = bytes(1000) + b"d"
+            before = sys.getrefcount(probe)
+            enc.deflate(probe)
+            after = sys.getrefcount(probe)
+            enc.flush()
+            return "inflate64" if after > before else None
+    except Exception:
+        return None
+    return None
+
+
 class C20(Check):
     property_id = "C20"
     level = "exploration"
@@ -84,6 +116,7 @@ class C20(Check):
             ("X86+LZMA", "zeros", "extract-factory", "writef", "alone", False),
             ("Delta+LZMA2", "period7", "extract-path", "writef", "alone", False),
             ("ZStandard", "random", "extract-factory", "writef", "alone", False),
+            ("Deflate64", "zeros", "extract-factory", "writef", "middle", False),
         ]
         cases = [c + ("w", None) for c in quick_cases]
         # the big member added by an append session; extraction under a finite soft RLIMIT_DATA (`ulimit -d`)
@@ -152,6 +185,9 @@ class C20(Check):
                 out.sample = sample
                 return out
             if w.get("peak_growth_kb", 0) > BUDGET_KB:
+                leak = encoder_leaks(case["codec"])
+                if leak:
+                    sig = dict(sig, encoder_leak=leak)  # KF-61 / KF-62: the codec library itself keeps every input block alive
                 out.violate(dict(sig, kind="rss", op="write-" + case["wapi"], content="compressible" if case["content"] != "random" else "incompressible"),
                             observed={"peak_growth_mib": w["peak_growth_kb"] // 1024, "member_mib": case["size_mb"], "error": w.get("error")},
                             expected="<= 700 MiB")
